@@ -624,6 +624,7 @@ def g_query(rng, cfg, fn=None):
         "fn": fn,
         "heavy": heavy,
         "big": rng.random() < cfg.get("p_big", 0.0),
+        "huge": rng.random() < 0.2,
         "d": [rng.randrange(D) for _ in range(12)],
         "seed": rng.randrange(D),
         "transform": tr,
